@@ -8,6 +8,8 @@
 (*   ClientClose{c}  clean close                                                              *)
 (*   Deliver{c,i}    logged by the consumer after it received the message                     *)
 (*   StopBegin / StopEnd{ms}, ConnZero{ok}, Final, AfterStop{leaked, relisten}                *)
+(*   StopLeak{leaked}  goroutines of the collector still alive right after Stop returned      *)
+(*                     (taken while the consumer is paused, so nothing can drain them)        *)
 (* plus monitor events (Race, Crash, Hang) for which there is no action.                      *)
 EXTENDS Integers, Sequences, FiniteSets, TraceBase
 
@@ -43,6 +45,7 @@ TDeliver ==
   /\ ev.i <= attempted[ev.c]
   /\ IF reliable THEN ev.i = last[ev.c] + 1 ELSE ev.i > last[ev.c]
   /\ lateFrom[ev.c] = 0 \/ ev.i < lateFrom[ev.c]
+  /\ ~ev.late                      \* the consumer's receive did not even BEGIN after Stop had returned
   /\ last' = [last EXCEPT ![ev.c] = ev.i] /\ ndeliv' = [ndeliv EXCEPT ![ev.c] = @ + 1]
   /\ UNCHANGED << n, reliable, attempted, half, cclosed, stopEnded, lateFrom >>
 
@@ -60,6 +63,8 @@ TFinal == /\ IsEvent("Final")
 TAfterStop == /\ IsEvent("AfterStop") /\ stopEnded /\ ev.leaked = 0 /\ ev.relisten
               /\ UNCHANGED << n, reliable, attempted, half, last, ndeliv, cclosed, stopEnded, lateFrom >>
 
-Next == TReset \/ TWrite \/ TWriteHalf \/ TClientClose \/ TDeliver \/ TStopBegin \/ TStopEnd \/ TConnZero \/ TFinal \/ TAfterStop
+TStopLeak == /\ IsEvent("StopLeak") /\ stopEnded /\ ev.leaked = 0
+             /\ UNCHANGED << n, reliable, attempted, half, last, ndeliv, cclosed, stopEnded, lateFrom >>
+Next == TStopLeak \/ TReset \/ TWrite \/ TWriteHalf \/ TClientClose \/ TDeliver \/ TStopBegin \/ TStopEnd \/ TConnZero \/ TFinal \/ TAfterStop
 Spec == Init /\ [][Next]_vars
 =============================================================================
